@@ -30,6 +30,44 @@ fn main() {
             }
         }
         "config" => println!("{}", config_name()),
+        "corpus" => {
+            // vrun corpus <dir> [n]: seed corpus for the `total` fuzz target from the structured generators
+            let dir = args.get(2).expect("directory");
+            let n: usize = args.get(3).and_then(|s| s.parse().ok()).unwrap_or(4);
+            std::fs::create_dir_all(dir).unwrap();
+            let p = vh::props::c19::C19::new();
+            use vh::engine::Property;
+            let mut k = 0;
+            for ci in 0..p.classes().len() {
+                for c in sample_strategy(&p.strategy(ci), 7 + ci as u64, n) {
+                    std::fs::write(format!("{dir}/seed-{k:05}"), vh::props::c19::case_to_bytes(&c)).unwrap();
+                    k += 1;
+                }
+            }
+            println!("{k} corpus files written");
+        }
+        "fuzzcase" => {
+            // vrun fuzzcase <artifact> <replay-out>: re-execute a libFuzzer artifact of target `total` in this (release) build
+            let data = std::fs::read(args.get(2).expect("artifact")).expect("read artifact");
+            let Some(c) = vh::props::c19::case_from_bytes(&data) else { println!("artifact too short"); return; };
+            let o = vh::props::c19::check_case(&c);
+            match o.verdict {
+                Verdict::Pass => println!("fuzzcase: holds in this build"),
+                Verdict::Fail { sig, msg } => {
+                    let out = args.get(3).cloned().unwrap_or_else(|| format!("{root}/replays/C19/fuzz-{:016x}.json", case_key(&c)));
+                    let v = serde_json::json!({"property": "C19", "config": config_name(), "class": "fuzz", "signature": sig, "message": msg, "case": serde_json::to_value(&c).unwrap()});
+                    let _ = std::fs::create_dir_all(std::path::Path::new(&out).parent().unwrap());
+                    std::fs::write(&out, serde_json::to_string_pretty(&v).unwrap()).unwrap();
+                    let known = load_known(&format!("{root}/known_findings.json"));
+                    if let Some(k) = known.iter().find(|k| k.property == "C19" && k.status == "known" && k.signature == v["signature"].as_str().unwrap()) {
+                        println!("KNOWN-FINDING: property=C19 {}", k.what);
+                    } else {
+                        println!("VIOLATION property=C19 replay={out}");
+                        std::process::exit(1);
+                    }
+                }
+            }
+        }
         "selftest" => {
             let errs = vh::selftest::run();
             for e in &errs {
